@@ -232,6 +232,7 @@ func (st *State) havocG(name string) string {
 
 type Exec struct {
 	v         *Verifier
+	lastAfterIns ssa.Instruction // call whose after-clauses were applied by applyContract
 	fn        *ssa.Function
 	con       *Contract
 	syms      map[string]string // symbol -> sort
